@@ -20,8 +20,12 @@
 //!
 //!   `xstress <i> cause= n=` | `w=<kind:result:st:name:pid:pg:mon:kids:link:post,…> sup=<events> st=<final>`
 //!                            (free-running tasks on a multi-threaded runtime; oracle only)
+//!   `xtimeout <i> kind=wait|stop_and_wait|drain_and_wait d=<µs>` | `res=<ok|timeout|err> el=<µs> st=<u8> ev=<k> fin=<u8> term=<k>`
+//!                            (free-running, real clock: a wait with timeout `d` on a target that cannot finish before the
+//!                            harness lets it — `wait`: it keeps running; the other two: its `post_stop` is gated — must
+//!                            report the timeout, not before `d`, with no effect of a timed-out `wait`; oracle only)
 //!
-//! usage: exitrace --seed S --cases N --out DIR [--enum-cap K] [--stress N] [--replay-ops f1,f2 [--only-replay 1]]
+//! usage: exitrace --seed S --cases N --out DIR [--enum-cap K] [--stress N] [--timeouts N] [--stress-only 1] [--replay-ops f1,f2 [--only-replay 1]]
 
 use std::future::Future;
 use std::pin::Pin;
@@ -743,6 +747,81 @@ fn stress_case(env: &mut Env, srt: &tokio::runtime::Runtime, rng: &mut Rng, idx:
     srt.block_on(async { tokio::time::sleep(Duration::from_millis(1)).await });
 }
 
+/// Target of the timeout cases: `post_stop` waits until the harness opens the gate.
+struct Gated {
+    gate: Arc<tokio::sync::Semaphore>,
+}
+impl Actor for Gated {
+    type Msg = Unit;
+    type State = ();
+    type Arguments = ();
+    async fn pre_start(&self, _: ActorRef<Unit>, _: ()) -> Result<(), ActorProcessingErr> {
+        Ok(())
+    }
+    async fn post_stop(&self, _: ActorRef<Unit>, _: &mut ()) -> Result<(), ActorProcessingErr> {
+        let _ = self.gate.acquire().await;
+        Ok(())
+    }
+}
+
+/// `wait(Some(d))` on a running actor, `stop_and_wait(_, Some(d))` / `drain_and_wait(Some(d))` on an actor whose
+/// `post_stop` is gated: the call cannot succeed before the harness lets the actor finish, so it must time out —
+/// measured on the real clock. Afterwards the actor is let go and must stop normally (one terminal event).
+fn timeout_case(env: &mut Env, srt: &tokio::runtime::Runtime, rng: &mut Rng, idx: u64) {
+    let events = Arc::new(Mutex::new(Vec::new()));
+    let kind = *rng.pick(&["wait", "wait", "stop_and_wait", "drain_and_wait"]);
+    let d_us = *rng.pick(&[0u64, 500, 1_000, 2_000, 5_000, 10_000, 20_000]);
+    let gate = Arc::new(tokio::sync::Semaphore::new(0));
+    let obs = srt.block_on(async {
+        let (sup_ref, _) = Actor::spawn(None, Sup { events: events.clone() }, ()).await.expect("spawn sup");
+        let (aref, _h) = Actor::spawn_linked(None, Gated { gate: gate.clone() }, (), sup_ref.get_cell()).await.expect("spawn gated");
+        let cell = aref.get_cell();
+        while aref.get_status() != ractor::ActorStatus::Running {
+            tokio::task::yield_now().await;
+        }
+        let d = Duration::from_micros(d_us);
+        let t0 = std::time::Instant::now();
+        let res = match kind {
+            "wait" => match cell.wait(Some(d)).await {
+                Ok(()) => "ok",
+                Err(_) => "timeout",
+            },
+            "stop_and_wait" => match cell.stop_and_wait(None, Some(d)).await {
+                Ok(()) => "ok",
+                Err(ractor::RactorErr::Timeout) => "timeout",
+                Err(_) => "err",
+            },
+            _ => match cell.drain_and_wait(Some(d)).await {
+                Ok(()) => "ok",
+                Err(ractor::RactorErr::Timeout) => "timeout",
+                Err(_) => "err",
+            },
+        };
+        let el = t0.elapsed().as_micros() as u64;
+        let st = cell.get_status() as u8;
+        let ev = events.lock().unwrap().iter().filter(|e| e.as_str() != "Started").count();
+        // let the actor go: event-driven from here on
+        gate.add_permits(8);
+        if kind == "wait" {
+            cell.stop(None);
+        }
+        let fin_ok = tokio::time::timeout(Duration::from_secs(10), cell.wait(None)).await.is_ok();
+        for _ in 0..2000 {
+            if events.lock().unwrap().iter().any(|e| e.starts_with("Terminated") || e == "Failed") {
+                break;
+            }
+            tokio::time::sleep(Duration::from_millis(1)).await;
+        }
+        let term = events.lock().unwrap().iter().filter(|e| e.starts_with("Terminated") || e.as_str() == "Failed").count();
+        let fin = if fin_ok { cell.get_status() as u8 } else { 255 };
+        sup_ref.stop(None);
+        format!("res={res} el={el} st={st} ev={ev} fin={fin} term={term}")
+    });
+    env.log.rec(format!("xtimeout {idx} kind={kind} d={d_us}"), obs.clone());
+    env.st.bump("timeout_cases");
+    env.st.bump(&format!("timeout_{kind}_{}", obs.split(' ').next().unwrap_or("?")));
+}
+
 fn replay_file(env: &mut Env, path: &str) {
     let txt = std::fs::read_to_string(path).unwrap_or_else(|e| panic!("cannot read {path}: {e}"));
     let lines: Vec<&str> = txt.lines().collect();
@@ -825,7 +904,10 @@ fn main() {
             replay_file(&mut env, f);
         }
     }
-    if args.u64("only-replay", 0) == 0 {
+    // `--stress-only 1`: only the free-running cases (the schedule-point engine needs the actor's task on a
+    // registered OS thread, which only the tokio backend's per-thread runtime gives)
+    let stress_only = args.u64("stress-only", 0) != 0;
+    if args.u64("only-replay", 0) == 0 && !stress_only {
         // every schedule of small configurations
         // a late `drain()` at every position of the exit sequence, a successor taking the freed name
         // at every position after it was freed
@@ -850,6 +932,13 @@ fn main() {
         let srt = tokio::runtime::Builder::new_multi_thread().worker_threads(3).enable_time().build().expect("stress runtime");
         for i in 0..stress {
             stress_case(&mut env, &srt, &mut rng, i);
+        }
+    }
+    let timeouts = args.u64("timeouts", 0);
+    if timeouts > 0 && args.u64("only-replay", 0) == 0 {
+        let srt = tokio::runtime::Builder::new_multi_thread().worker_threads(2).enable_time().build().expect("timeout runtime");
+        for i in 0..timeouts {
+            timeout_case(&mut env, &srt, &mut rng, i);
         }
     }
     env.st.add("lines", env.log.lines);
